@@ -1105,10 +1105,10 @@ def run(ctx):
         "binary, wide, near, random); malformed stream (non-permutations, non-partitions) for the extracted checkers only. "
         "non-trivial = n>=2 with at least one stored entry (forests: n>=2).")
     ctx.cov["partial"] += [
-        "symmetric mode (colorder_perm_sym_partial): the conclusions are proved for every run of the model that returns a result; "
-        "totality of the at_plus_a model on well-formed square input, and 'the reported etree is the etree of Pc(A+A')Pc'' (needs "
-        "at_plus_a = pattern of A+A') are NOT proved in Coq; both are compared on every generated square pattern (C vs model vs "
-        "extracted symetree_spec vs independent reference)",
+        "symmetric mode: totality (c10_colorder_sym_total), at_plus_a = off-diagonal pattern of A+A' (c10_at_plus_a_pattern) and "
+        "'the reported etree is symetree_spec of Pc(A+A')Pc'' (c10_colorder_sym_etree_is_spec) are proved for square patterns with "
+        "monotone column pointers (EtreeSymProofs.v; without monotonicity the model - and the C code - index out of range: "
+        "at_plus_a_needs_monotone); also compared on every generated square pattern (C vs model vs extracted spec vs reference)",
         "MMD (mmd.c), COLAMD (colamd.c), getata/at_plus_a as used by get_perm_c, qrnzcnt.c, cholnzcnt.c are not modelled: the verified "
         "checkers check_perm / check_blocks and the reference column counts are run on their outputs for every generated pattern",
         "sp_colorder for m > n (and for n = 0) is run in the campaign only when the sanitizer probes of these classes are clean "
